@@ -48,12 +48,13 @@ func (s *GenericStack[T]) Push(value T) (id uint64) {
 
 // Pop removes the next T from the stack and returns it
 func (s *GenericStack[T]) Pop() T {
+	s.mux.Lock()
+	defer s.mux.Unlock()
+	// test for emptiness under the lock: another Pop may have taken the last entry in the meantime
 	if s.stack.Len() == 0 {
 		var zero T
 		return zero
 	}
-	s.mux.Lock()
-	defer s.mux.Unlock()
 	entry := heap.Pop(s.stack)
 	return entry.(*stackEntry[T]).entry
 }
@@ -81,8 +82,8 @@ func (s *GenericStack[T]) Len() int {
 
 // Values returns a slice of all the values on the stack
 func (s *GenericStack[T]) Values() []T {
-	values := make([]T, 0, s.stack.Len())
 	s.mux.RLock()
+	values := make([]T, 0, s.stack.Len())
 	stackCpy := make([]*stackEntry[T], s.stack.Len())
 	// Make copy of entries and sort by id since heap may not be kept in order
 	copy(stackCpy, s.stack.entries)
